@@ -143,6 +143,8 @@ type FnCtx struct {
 	requiresTerms []string
 	reqPrefix     int
 	houdiniObs    []*houdiniOb
+	pendingHavoc []string
+	nglobals int
 }
 
 type fnOpts struct {
@@ -440,8 +442,13 @@ func (c *FnCtx) term(v ssa.Value) string {
 		c.vals[v] = n
 		return n
 	case *ssa.Global:
-		// address of a global: handled by addrOf
-		unsupp("global %s used as a value", x.Name())
+		// package-level variables are heap objects at small fixed references
+		c.nglobals++
+		n := "G_" + sanitize(x.Pkg.Pkg.Name()+"_"+x.Name())
+		c.declare(n, "Int")
+		c.ctx0(eq(n, intLit(int64(c.nglobals))))
+		c.vals[v] = n
+		return n
 	case *ssa.Builtin:
 		unsupp("builtin %s used as a value", x.Name())
 	}
@@ -690,12 +697,10 @@ func (c *FnCtx) addrOf(v ssa.Value) *addr {
 	if !ok {
 		unsupp("addrOf non-pointer %s", v.Name())
 	}
-	if g, ok := v.(*ssa.Global); ok {
-		name := "G_" + sanitize(g.Pkg.Pkg.Name()+"_"+g.Name())
-		a := &addr{kind: aGlobal, heap: name, ty: pt.Elem()}
-		c.heapDecl(name, c.sorts.sortOf(pt.Elem()))
-		c.addrs[v] = a
-		return a
+	if _, ok := v.(*ssa.Global); ok {
+		if _, isArr := types.Unalias(pt.Elem()).Underlying().(*types.Array); isArr {
+			unsupp("global array %s", v.Name())
+		}
 	}
 	// a pointer held in an SMT term
 	p := c.term(v)
@@ -931,7 +936,7 @@ func (c *FnCtx) translate() {
 		c.heapDecl(n, c.knownHeaps[n])
 	}
 	c.heapDecl("ALLOC", "Int")
-	c.assume(le("1", c.entry["ALLOC"]))
+	c.assume(le("1000", c.entry["ALLOC"])) // references below 1000 are package-level variables
 	// parameters and free variables
 	for i, p := range fn.Params {
 		c.freshVal(p)
